@@ -182,7 +182,11 @@ func (s *Solver) checkCmd(cmd string) SatResult {
 		}
 		break
 	}
-	s.Time += time.Since(t0)
+	dt := time.Since(t0)
+	s.Time += dt
+	if dt > 2*time.Second && os.Getenv("GOSYM_PROGRESS") != "" {
+		fmt.Fprintf(os.Stderr, "slow query %.1fs result=%v cmd=%s", dt.Seconds(), res, cmd)
+	}
 	switch res {
 	case Sat:
 		s.NSat++
@@ -204,6 +208,24 @@ func (s *Solver) CheckWith(extra *Term) SatResult {
 	}
 	ref := s.emit(extra)
 	return s.checkCmd("(check-sat-assuming (" + ref + "))\n")
+}
+
+// CheckAssuming checks the conjunction of lits (nothing is asserted permanently).
+func (s *Solver) CheckAssuming(lits []*Term) SatResult {
+	refs := make([]string, 0, len(lits))
+	for _, l := range lits {
+		if l.Op == OpConst {
+			if l.Val == 0 {
+				return Unsat
+			}
+			continue
+		}
+		refs = append(refs, s.emit(l))
+	}
+	if len(refs) == 0 {
+		return s.checkCmd("(check-sat)\n")
+	}
+	return s.checkCmd("(check-sat-assuming (" + strings.Join(refs, " ") + "))\n")
 }
 
 // readSexp reads one balanced s-expression from the solver output.
